@@ -122,6 +122,8 @@ def build(model=None, vi=False):
     r = vlib.pmap(lambda f: f(), jobs)
     if vi:
         r.append(vlib.build_vi())       # shares the object directory of the plain probe
+        if vi == 'asan':
+            r.append(vlib.build_vi(asan=True))
     return r
 
 
